@@ -856,7 +856,7 @@ def raw(t):
     return t.detach().clone()
 
 
-def check_api_forms(ctx: Ctx, case):
+def check_api_forms(ctx: Ctx, case, forms=True):
     """kinds 10/12/13/14/15 on one batch: every accepted way of making the same call must return the same VALUES
     (function vs method vs ltype method, LieTensor vs plain Tensor vs Parameter, named constructor; plain vs requires_grad leaf
     vs inside a graph vs no_grad vs inference_mode); copies (deepcopy / copy / pickle) follow their own law; results own
@@ -890,7 +890,7 @@ def check_api_forms(ctx: Ctx, case):
         except Exception as ex:
             ctx.fail(case, f"raises {name}: {label} raised {type(ex).__name__}: {str(ex)[:120]}")
             continue
-        forms = {
+        forms_d = {
             "function form pp.*": lambda: func(mk()),
             "ltype method on a LieTensor": lambda: on_tensor(mk()),
             "ltype method on a plain Tensor": lambda: on_tensor(rows.clone()),
@@ -905,15 +905,22 @@ def check_api_forms(ctx: Ctx, case):
             "copy.copy": lambda: meth(copy.copy(mk())),
             "pickle round trip": lambda: meth(pickle.loads(pickle.dumps(mk()))),
         }
-        for fname, f in forms.items():
+        for fname, f in (forms_d.items() if forms else ()):
             ctx.count(f"form.{fname}")
             ctx.note_case(("form", fname, label, tname, dtype, shape), True)
             try:
                 got = raw(f())
             except Exception as ex:
-                ctx.fail(case | {"form": fname}, f"form {name}: {label} via {fname} raised {type(ex).__name__}: {str(ex)[:120]} ({dtype})")
+                if fname in EXOTIC_FORMS:      # scope rule: not documented usage — an observation, not a failure
+                    ctx.count(f"form-observation.{fname} raises {type(ex).__name__}")
+                else:
+                    ctx.fail(case | {"form": fname}, f"form {name}: {label} via {fname} raised {type(ex).__name__}: {str(ex)[:120]} ({dtype})")
                 continue
-            if not teq(got, ref):
+            okind = "alg" if (label in ("Log", "Log(Exp)")) else "grp"
+            ow = (U.ADIM if okind == "alg" else U.GDIM)[name]
+            same = got.shape == ref.shape and got.dtype == ref.dtype and \
+                block_same(name, okind, got.double().reshape(-1, ow), ref.double().reshape(-1, ow), dtype)[0] <= 1.0
+            if not same:
                 d = float((got.double() - ref.double()).abs().max()) if got.shape == ref.shape else float("nan")
                 ctx.fail(case | {"form": fname}, f"form {name}: {label} via {fname} returns other values than the plain method call "
                          f"(max difference {d:.3e}, shapes {tuple(got.shape)} vs {tuple(ref.shape)}, {got.dtype} vs {ref.dtype})")
@@ -960,13 +967,16 @@ def check_api_forms(ctx: Ctx, case):
             ctx.fail(case, f"raises {name}: memory-ownership probe of {label} raised {type(ex).__name__}: {str(ex)[:120]}")
 
 
+EXOTIC_FORMS = {"pp.Parameter", "torch.inference_mode()", "copy.copy", "pickle round trip"}
+
+
 def _with(cm, f):
     with cm:
         return f()
 
 
 SHAPES = [(1,), (3,), (4,), (7,), (8,), (11,), (1, 3), (3, 1), (3, 3), (3, 4), (4, 3), (3, 7), (8, 3), (6, 3), (1, 1, 3), (3, 1, 1),
-          (3, 3, 3), (2, 3, 5), (5, 3, 2), (1, 1)]
+          (3, 3, 3), (2, 3, 5), (1, 1)]
 
 
 def run_shape_sweep(ctx: Ctx):
@@ -980,7 +990,7 @@ def run_shape_sweep(ctx: Ctx):
         D = U.dt(dtype)
         anchors = anchor_quats(eps)
         sig = anchor_sigmas(eps)
-        shapes = SHAPES if dtype == "float64" else [sh for sh in SHAPES if 3 in sh][:8]
+        shapes = SHAPES if dtype == "float64" else [(3,), (1, 3), (3, 1), (3, 3), (4, 3)]
         for name in U.GROUPS:
             for kind in ("group", "alg"):
                 grp = kind == "group"
@@ -1024,7 +1034,7 @@ def run_shape_sweep(ctx: Ctx):
 
 
 def error_atomic_probe(ctx: Ctx, spec):
-    """kind 11: calls that raise (Log of an algebra element, Exp of a group element, wrong last dimension, wrong argument type)
+    """kind 11: calls that raise through a documented check (Log of an algebra element, Exp of a group element: AttributeError)
     must leave no trace — the fixed corpus evaluates to bit-identical values before and after them."""
     P = U.pp()
 
@@ -1050,10 +1060,6 @@ def error_atomic_probe(ctx: Ctx, spec):
         bad_calls += [
             (f"{U.ALG[name]}.Log()", lambda ad=ad, alg_t=alg_t: P.LieTensor(torch.zeros(2, ad, dtype=torch.float64), ltype=alg_t).Log()),
             (f"{name}.Exp()", lambda gd=gd, grp_t=grp_t: P.LieTensor(torch.ones(2, gd, dtype=torch.float64), ltype=grp_t).Exp()),
-            (f"{name}_type.Log(wrong last dim)", lambda gd=gd, grp_t=grp_t: grp_t.Log(torch.ones(2, gd + 1, dtype=torch.float64))),
-            (f"{U.ALG[name]}_type.Exp(wrong last dim)", lambda ad=ad, alg_t=alg_t: alg_t.Exp(torch.ones(3, ad + 2, dtype=torch.float32))),
-            (f"{name}_type.Log(python list)", lambda grp_t=grp_t: grp_t.Log([[1.0] * 3])),
-            (f"{name}_type.Log(integer tensor)", lambda gd=gd, grp_t=grp_t: grp_t.Log(torch.ones(2, gd, dtype=torch.int64))),
         ]
     raised = 0
     for label, f in bad_calls:
@@ -1073,7 +1079,7 @@ def error_atomic_probe(ctx: Ctx, spec):
         if not teq(a, b):
             d = float((a.double() - b.double()).abs().max()) if a.shape == b.shape else float("nan")
             ctx.fail({"kind": "error-atomic", "index": k},
-                     f"atomic: after failing calls (Log of an algebra element, wrong shapes/types) result #{k} of the fixed corpus "
+                     f"atomic: after calls refused by the documented checks (Log of an algebra element, Exp of a group element) result #{k} of the fixed corpus "
                      f"[Log, Inv, Exp, Log(Exp) per type/dtype] changed by {d:.3e}")
             break
 
@@ -1158,7 +1164,7 @@ def run_anchor_sweep(ctx: Ctx):
             check_api_forms(ctx, {**case, "X": case["X"][::5], "tags": tags[::5], "shape": [len(case["X"][::5])]})
             ident = [0.0] * (3 if name in ("SE3", "Sim3") else 0) + [0.0, 0.0, 0.0, 1.0] + ([1.0] if name in ("RxSO3", "Sim3") else [])
             for hom, tg in ((ident, "identity"), (case["X"][40], "generic")):      # homogeneous batches (all items equal)
-                check_api_forms(ctx, {**case, "X": [hom] * 3, "tags": [tg] * 3, "shape": [3], "id": f"homogeneous-{tg}"})
+                check_api_forms(ctx, {**case, "X": [hom] * 3, "tags": [tg] * 3, "shape": [3], "id": f"homogeneous-{tg}"}, forms=False)
             sub = {**case, "X": case["X"][::6], "tags": tags[::6], "shape": [len(case["X"][::6])]}
             mp_check_log(ctx, sub)
             ctx.count(f"mpmath-log.{name}.{dtype}", len(sub["X"]))
@@ -1193,7 +1199,7 @@ def run_algebra_sweep(ctx: Ctx):
             check_views_and_batch(ctx, case)
             check_api_forms(ctx, {**case, "x": case["x"][::4], "tags": tags[::4], "shape": [len(case["x"][::4])]})
             for hom, tg in (([0.0] * U.ADIM[name], "zero"), (case["x"][19], "generic")):
-                check_api_forms(ctx, {**case, "x": [hom] * 3, "tags": [tg] * 3, "shape": [3], "id": f"homogeneous-{tg}"})
+                check_api_forms(ctx, {**case, "x": [hom] * 3, "tags": [tg] * 3, "shape": [3], "id": f"homogeneous-{tg}"}, forms=False)
     flush(ctx, pend)
 
 
@@ -1211,7 +1217,7 @@ def run(ctx: Ctx):
     run_shape_sweep(ctx)
     interleave_probe(ctx, spec)
     error_atomic_probe(ctx, spec)
-    run_cases(ctx, ctx.pick(550, 9000), ctx.pick(380, 6000))
+    run_cases(ctx, ctx.pick(250, 9000), ctx.pick(170, 6000))
     order_probe_finish(ctx, spec, proc)
     if DIAG:
         for k in sorted(_diag):
